@@ -113,7 +113,8 @@ def origin(annotation: tp.Any) -> tp.Any:
     # Unwrap optional/classvar
     if isclassvartype(actual):
         a = args(actual)
-        actual = a[0] if a else actual
+        # The qualified type may itself be a NewType.
+        actual = resolve_supertype(a[0]) if a else actual
 
     # Resolve type aliases, which may themselves name a NewType or another alias.
     while istypealiastype(actual):
